@@ -16,3 +16,18 @@ META["C16"] = {
         "unbounded integers are outside a bounded enumeration: covered are the stated ranges plus the 2^k boundary lattice up to 2^64-1",
     ],
 }
+
+META["C09"] = {
+    "level": "exploration",
+    "tiers": {
+        "quick": {"shards": 1, "deadline_s": 120,
+                  "bounds": "all weight vectors of length 1..4 over {0,1,2,3,0.1,1/3,1e-3} x every critical canonical value x 3 types; all 2^24 float canonical values for 4 weight vectors; critical values as channel draw inside multi_channel_iteration for all vectors over {0,1,2,3}"},
+        "thorough": {"shards": 1, "deadline_s": 900,
+                     "bounds": "as quick, with the full 2^24 value sweep for 71 weight vectors"},
+    },
+    "rule": "nested enumeration of weight vectors x critical generator outputs (0, 2^-64 neighbours, every cumulative boundary +-3 steps on the 2^-64 lattice and on the lattice of T, largest value below 1); non-trivial = the vector contains a disabled channel; distinct = distinct (type, vector, raw output)",
+    "assumptions": [
+        "the canonical number for a raw 64-bit output is computed by calling std::generate_canonical on a copy of the engine (same standard function the library calls)",
+        "a canonical number within 8 epsilon of a cumulative boundary may select either neighbour (closed vs half-open is left open by the property); a disabled channel is never accepted",
+    ],
+}
